@@ -253,8 +253,15 @@ func contract_MessageInfo_sizePointerSlow(mi *MessageInfo, p pointer, opts marsh
 	modifiesAll()
 	ensures(imp(mi.sizecacheOffset.IsValid() && size <= math.MaxInt32-1, *p.Apply(mi.sizecacheOffset).Int32() == int32(size+1)))
 	ensures(imp(mi.sizecacheOffset.IsValid() && size > math.MaxInt32-1, *p.Apply(mi.sizecacheOffset).Int32() == 0))
+	// definitional: the result of this function is what "a recomputed size" means
+	ensuresTrusted(specRecomputed(size))
 	return
 }
+
+// specRecomputed marks a value as the result of a size recomputation (uninterpreted).
+//
+// @ uninterpreted
+func specRecomputed(size int) bool { return true }
 
 // sizePointer trusts the cache only when asked to (UseCachedSize) and only when it holds a
 // positive value, in which case the answer is that value minus one; otherwise it recomputes.
@@ -268,7 +275,9 @@ func contract_MessageInfo_sizePointer(mi *MessageInfo, p pointer, opts marshalOp
 	ensures(imp(p.p == nil, size == 0))
 	ensures(imp(p.p != nil && opts.UseCachedSize() && old(mi.sizecacheOffset.IsValid()) && old(*p.Apply(mi.sizecacheOffset).Int32()) > 0,
 		size == int(old(*p.Apply(mi.sizecacheOffset).Int32())-1)))
-	// a recomputation refreshes the cache
+	// in every other case the size is recomputed (never taken from the cache) ...
+	ensures(imp(p.p != nil && !(opts.UseCachedSize() && old(mi.sizecacheOffset.IsValid()) && old(*p.Apply(mi.sizecacheOffset).Int32()) > 0), specRecomputed(size)))
+	// ... and the recomputation refreshes the cache
 	ensures(imp(p.p != nil && !(opts.UseCachedSize() && old(mi.sizecacheOffset.IsValid()) && old(*p.Apply(mi.sizecacheOffset).Int32()) > 0) &&
 		mi.sizecacheOffset.IsValid() && size <= math.MaxInt32-1, *p.Apply(mi.sizecacheOffset).Int32() == int32(size+1)))
 	return
